@@ -541,7 +541,7 @@ def gen_cases(chk):
     rng = chk.rng
     thorough = chk.tier == "thorough"
     cases = corpus_cases()
-    rep = 6 if thorough else 1
+    rep = 10 if thorough else 1
     for _ in range(rep):
         for n in SIZES_OUT:
             for kind in ("text", "rand", "run"):
@@ -550,11 +550,11 @@ def gen_cases(chk):
                         continue
                     cases.append(gen_out_single(rng, n, kind, style, rng.choice([64, 64, 192])))
     cases.append({"flags": 64, "ops": [["send", ""], ["run", 1], ["send", "3c612f3e"], ["run", 1]], "kind": "out-empty"})
-    for _ in range(1500 if thorough else 110):
+    for _ in range(5000 if thorough else 110):
         cases.append(gen_out_multi(rng, rng.choice([64, 192])))
-    for _ in range(300 if thorough else 16):
+    for _ in range(800 if thorough else 16):
         cases.append(gen_out_multi(rng, rng.choice([64, 192]), big=True))
-    for _ in range(400 if thorough else 24):
+    for _ in range(1000 if thorough else 24):
         cases.append(gen_out_backpressure_big(rng, rng.choice([64, 192])))
     # inbound: one stanza of every size in one chunk; then fragmentations
     for _ in range(rep):
@@ -577,7 +577,7 @@ def gen_cases(chk):
                     data = st + TERMINATOR % 1 + TERMINATOR % 2
                     ops = [["rx", st.encode().hex()], ["run", 4], ["rx", (TERMINATOR % 1 + TERMINATOR % 2).encode().hex()], ["run", 2]]
                     cases.append({"flags": 64, "ops": ops, "kind": "in-marker-split", "terminated": True})
-    for _ in range(600 if thorough else 40):
+    for _ in range(2500 if thorough else 40):
         cases.append(gen_mixed(rng, rng.choice([64, 192])))
     return cases
 
